@@ -121,9 +121,44 @@ func BuildWith(r *core.Rand, caseID string, o BuildOpts, pre func(*World)) (*Wor
 			budget -= n
 			total += len(recs)
 		}
+		// Sometimes a batch holding an unmarshalable row is slipped in while the step's good
+		// batches sit in the partition buffers: it must be rejected as a whole and leave no trace
+		// in rows, filters, counts or ranges.
+		var poison chan error
+		if r.Chance(0.2) && len(batches) > 0 {
+			first := batches[:1]
+			rest := batches[1:]
+			if _, err := w.ingestNoFlush(ei, first); err != nil {
+				w.Close()
+				return nil, nil, fmt.Errorf("ingest step %d: %w", s, err)
+			}
+			var perr error
+			if poison, perr = w.IngestPoison(r.Split("poison", s), ei); perr != nil {
+				w.Close()
+				return nil, nil, fmt.Errorf("poison batch refused at step %d: %w", s, perr)
+			}
+			batches = rest
+		}
 		if err := w.IngestSync(ei, batches); err != nil {
 			w.Close()
 			return nil, nil, fmt.Errorf("ingest step %d: %w", s, err)
+		}
+		if poison != nil {
+			select {
+			case perr := <-poison:
+				if perr == nil {
+					w.Close()
+					return nil, nil, fmt.Errorf("step %d: a batch holding an unmarshalable row was acknowledged nil", s)
+				}
+			case <-time.After(30 * time.Second):
+				w.Close()
+				return nil, nil, fmt.Errorf("step %d: unmarshalable batch not answered", s)
+			}
+			if err := w.settlePending(); err != nil {
+				w.Close()
+				return nil, nil, fmt.Errorf("ingest step %d: %w", s, err)
+			}
+			d.Steps = append(d.Steps, "poison-batch(rejected)")
 		}
 		d.Steps = append(d.Steps, fmt.Sprintf("ingest(engine=%d,batches=%d,rows=%d)+flush", ei, len(batches), total))
 		if o.ExtFiles && r.Chance(0.6) {
